@@ -28,6 +28,7 @@ type pProfile struct {
 	twin      bool // compare with a fresh parser after every Reset (C13)
 	staleBias bool // geometry and data that make stale dictionary entries matter (C13)
 	bigTable  bool // hash tables of 2^20 entries (oracle only)
+	hugeWin   bool // always one of the largest windows Verify accepts, tiny hash tables
 }
 
 func (pf pProfile) withKinds(k ...string) pProfile { pf.kinds = k; return pf }
@@ -67,7 +68,7 @@ func genPCfg(r *rng, kind string, pf pProfile) pcfg {
 	if pf.bigWin && r.chance(70) {
 		c.f["WindowSize"] = bs + r.rangeIn(0, 9)
 	}
-	if r.chance(8) {
+	if r.chance(8) || pf.hugeWin {
 		// the largest windows Verify accepts (the window is independent of the buffer): offsets are
 		// computed in 32-bit types in places
 		c.f["WindowSize"] = r.pick(1<<32-8, 1<<32-9, 1<<31, 1<<31-1, 1<<31+5, 1<<32-8-bs)
@@ -87,6 +88,9 @@ func genPCfg(r *rng, kind string, pf pProfile) pcfg {
 	hb := func(il int) int {
 		if pf.bigTable && 8*il >= 20 {
 			return r.pick(20, 20, 21)
+		}
+		if pf.hugeWin {
+			return r.rangeIn(1, 3) // collisions evict entries: positions ahead of the window head stay in the table
 		}
 		m := 8 * il
 		if m > 6 {
